@@ -213,22 +213,57 @@ structure ExpRes where
   locked : Bool
 deriving Repr, DecidableEq
 
-/-- The loop `for i, e := range tx.Entries()` of `ExportTx`, given the result of `readValueAt` for
+/-- The pass in front of the entry loop of `ExportTx`, run only when the FIRST entry holds an empty value
+(`tx.Entries()[0].vLen == 0`): the first non-empty value is read (without `_valBsMux`, into a buffer of its
+own) to learn how the transaction is going to be exported — `some true` = by digest (`io.EOF`), `some false`
+= with its values (also when every value is empty), `none` = another error of `readValueAt`.  Entries are
+given as `(vLen, result of readValueAt)`. -/
+def firstNonEmpty : List (Nat × Rd) → Option Bool
+  | [] => some false
+  | (len, r) :: rs =>
+    if len = 0 then firstNonEmpty rs
+    else match r with
+      | .err => none
+      | .eof => some true
+      | .ok => some false
+
+def exportPre : List (Nat × Rd) → Option Bool
+  | [] => some false
+  | (len, r) :: rs => if len = 0 then firstNonEmpty ((len, r) :: rs) else some false
+
+/-- The loop `for i, e := range tx.Entries()` of `ExportTx`, given `(vLen, result of readValueAt)` for
 each entry. Every iteration starts with `Lock()`; every exit — the two "partially truncated" returns
-included — is preceded by `Unlock()`.  (`locked` is kept in the result so that the lock discipline is a
-statement about the model, `Props.C14.export_releases_lock`, and the driver reports it to the harness,
-which checks the real mutex with `TryLock`.) -/
-def exportLoop : Nat → Bool → List Rd → ExpRes
+included — is preceded by `Unlock()`.  An EMPTY value reads fine whether or not the values of the
+transaction were truncated (nothing to read): `err == nil && (e.vLen > 0 || !isValueTruncated)` sends it
+with the values of an untruncated transaction and by digest with those of a truncated one, so it is
+neutral for both "either all the values are sent or none" guards (before that repair a wholly truncated
+transaction holding an empty value took a "partially truncated" exit and could never be exported again).
+(`locked` is kept in the result so that the lock discipline is a statement about the model,
+`Props.C14.export_releases_lock`, and the driver reports it to the harness, which checks the real mutex
+with `TryLock`.) -/
+def exportLoop : Nat → Bool → List (Nat × Rd) → ExpRes
   | _, trunc, [] => ⟨if trunc then .digests else .values, false⟩
-  | i, trunc, r :: rs =>
+  | i, trunc, (len, r) :: rs =>
     match r with
     | .err => ⟨.errRead, false⟩                                   -- Unlock(); return
-    | .ok => if trunc then ⟨.errPartial, false⟩                   -- Unlock(); return
-             else exportLoop (i + 1) trunc rs                      -- …; Unlock()
+    | .ok =>
+      if 0 < len ∨ trunc = false then
+        if trunc then ⟨.errPartial, false⟩                         -- Unlock(); return
+        else exportLoop (i + 1) trunc rs                           -- value written; Unlock()
+      else
+        -- empty value of a truncated transaction: the digest branch (its guard needs `!isValueTruncated`)
+        exportLoop (i + 1) true rs                                 -- digest written; Unlock()
     | .eof => if !trunc && 0 < i then ⟨.errPartial, false⟩        -- Unlock(); return
-              else exportLoop (i + 1) true rs                      -- …; Unlock()
+              else exportLoop (i + 1) true rs                      -- digest written; Unlock()
 
-/-- `ExportTx(id)` on a store: a tx with ≥ 1 entry needs the mutex. -/
+/-- Pre-pass and loop on the read results of a non-empty transaction. -/
+def exportRun (rs : List (Nat × Rd)) : ExpRes :=
+  match exportPre rs with
+  | none => ⟨.errRead, false⟩                                      -- returned before the first `Lock()`
+  | some t => exportLoop 0 t rs
+
+/-- `ExportTx(id)` on a store: a tx with ≥ 1 entry needs the mutex (the pre-pass does not, but in this
+model `readValueAt` answers `ok` or `io.EOF` only, so it never returns early). -/
 def Store.exportTx (s : Store) (id : Nat) : Store × ExpOut :=
   if id = 0 ∨ s.last < id then (s, .errTx)
   else match s.txs[id - 1]? with
@@ -237,7 +272,7 @@ def Store.exportTx (s : Store) (id : Nat) : Store × ExpOut :=
       if tx.isEmpty then (s, .values)
       else if s.valBsLocked then (s, .blocked)
       else
-        let r := exportLoop 0 false (tx.map s.readValue)
+        let r := exportRun (tx.map (fun e => (e.len, s.readValue e)))
         ({ s with valBsLocked := r.locked }, r.out)
 
 /-! ### committing (used by the in-flight witness) -/
